@@ -17,7 +17,7 @@ ENGINE = 'E1+E2'
 
 
 def plan(tier, seed):
-    scs = base_scenarios(tier, seed, hints=True) + special_scenarios(tier)
+    scs = base_scenarios(tier, seed, hints=True) + special_scenarios(tier) + history_scenarios(tier)
     return dict(scenarios=scs, exhaustive=True, chunk=40, menus=menus(tier, seed),
                 bounds=dict(draw_deviation_bound=draw_bound(tier), executions_cap_per_scenario=60 if tier == 'quick' else 300),
                 rule='one scenario per alphabet tuple, every draw answer within the bound inside; non-trivial = at least one match is reported and the scenario has a decoy, a boundary-crossing placement or hints',
@@ -61,8 +61,32 @@ def check_match(m, sc, idx, pos, quat, n, pel, pp, cell, atol):
     return bad
 
 
+def run_hist(sc, ctx, out):
+    """the per-match oracle applied to the search on objects with a past, judged on their current content"""
+    e = run_history(sc, ctx)
+    desc = dict(history=e['name'], base=HIST_BASES[sc['base']], hints=e['kw'])
+    if e.get('alias'):
+        out['violations'].append(viol('history', 'shared-data', '%s: %s' % (e['name'], e['alias']), sc, case=desc))
+    if e.get('skip'):
+        out['outcomes']['history skipped: ' + e['skip'][:40]] = 1; return out
+    S, Pt = e['S'], e['P']; out['evals'] += 1
+    if e['err']:
+        out['violations'].append(viol('no-result', 'history-exc:' + exc_sig(e['err']), 'after the history "%s" the search raised %r' % (e['name'], e['err'][0]), sc, case=desc)); return out
+    idxs, poss, quats = e['res']
+    m2 = dict(spec=dict(el=[str(x) for x in S.elements], pos=np.asarray(S.positions, float)), p=Pt, cell=np.asarray(S.cell, float))
+    pel = [str(x) for x in Pt.elements]; pp = np.asarray(Pt.positions, float)
+    for j in range(len(idxs)):
+        out['compared'] += 1
+        for clause, msg in check_match(m2, sc, idxs[j], poss[j], quats[j], len(m2['spec']['el']), pel, pp, m2['cell'], e['atol']):
+            out['violations'].append(viol(clause, 'history:' + clause, 'after the history "%s" (judged on the current content of structure and pattern): %s' % (e['name'], msg), sc, case=desc))
+    out['outcomes']['history matches=%d' % len(idxs)] = 1; out['nontrivial'] = 1 if len(idxs) else 0
+    return out
+
+
 def run(sc, ctx):
     out = dict(evals=0, compared=0, violations=[], outcomes={}, hashes={h64(sc)}, nontrivial=0, gray=0)
+    if 'history' in sc:
+        return run_hist(sc, ctx, out)
     m = materialise(sc, ctx)
     spec = m['spec']; n = len(spec['el']); atol = sc['atol']
     bound = draw_bound(ctx['tier'])
